@@ -49,17 +49,26 @@ class Analysis:
         self.fns = fns              # name -> Fn   (unqualified; koala has no clashes that matter)
         self.summ = {}              # name -> (set mutated param idx, set returned-alias param idx, uses_global_rng)
         self.stack = []
+        self.recursive = set()
+        self.prov = {}              # provisional summaries of recursive functions
 
     # ---- per function ----------------------------------------------------------------------
     def summarise(self, name):
         if name in self.summ: return self.summ[name]
-        if name in self.stack: return (set(), set(), False)      # recursion guard (none in koala)
-        self.stack.append(name)
+        if name in self.stack:                                   # recursion: use the summary found so far, iterate to a fixpoint below
+            self.recursive.add(name)
+            return (*self.prov.get(name, (set(), set(), False)), None)
         fn = self.fns[name]
-        st = FnState(self, fn)
-        st.run()
-        self.stack.pop()
-        self.summ[name] = (st.mut_params(), st.ret_params(), st.global_rng, st)
+        for _ in range(6):
+            self.stack.append(name)
+            st = FnState(self, fn)
+            st.run()
+            self.stack.pop()
+            new = (st.mut_params(), st.ret_params(), st.global_rng)
+            if name not in self.recursive or new == self.prov.get(name):
+                break
+            self.prov[name] = new
+        self.summ[name] = (*new, st)
         return self.summ[name]
 
 
